@@ -63,7 +63,7 @@ func HarnessC07SyncSSA() { zzC07Sync(true) }
 // HarnessC07SyncCSA: the same for the client-side (merge based) syncer.
 //
 //gosym:harness
-//gosym:cover bound-existing created-new reserved-label manual automatic
+//gosym:cover bound-existing created-new reserved-label manual automatic claim-without-status
 func HarnessC07SyncCSA() { zzC07Sync(false) }
 
 func zzC07Sync(ssa bool) {
@@ -131,9 +131,16 @@ func zzC07Sync(ssa bool) {
 	case 2:
 		cm.SetAnnotations(map[string]string{lkey: "av", "crossplane.io/external-name": "ext-claim-edited"})
 	}
+	claimHasStatus := true
 	if !ssa {
-		// the client-side syncer only merges XR status into an existing claim status
-		cm.Object["status"] = map[string]any{}
+		// the client-side syncer only merges XR status into an existing claim
+		// status; a claim synced for the first time has none yet
+		claimHasStatus = zz.Bool("claim.hasStatus")
+		if claimHasStatus {
+			cm.Object["status"] = map[string]any{}
+		} else {
+			zz.Cover("claim-without-status")
+		}
 	}
 	reserved := zz.Or(zz.HasSuffix(prefix, "kubernetes.io"), zz.HasSuffix(prefix, "k8s.io"))
 	s.Put(cm)
@@ -265,7 +272,9 @@ func zzC07Sync(ssa bool) {
 	cspec, _ := cdoc["spec"].(map[string]any)
 	cstatus, _ := cdoc["status"].(map[string]any)
 	if xrExists {
-		zz.Assert("user-status-field-reaches-claim", cstatus[us0] == any("user-status"))
+		if claimHasStatus {
+			zz.Assert("user-status-field-reaches-claim", cstatus[us0] == any("user-status"))
+		}
 		for _, f := range zzStatusMachine {
 			if f == "conditions" {
 				continue
